@@ -195,6 +195,11 @@ func (r *Header) Select(pool HostPool, request *http.Request) *UpstreamHost {
 
 	val := ""
 	for _, name := range r.Names {
+		if http.CanonicalHeaderKey(name) == "Host" {
+			// net/http keeps the Host field out of the header map
+			val += request.Host
+			continue
+		}
 		val += request.Header.Get(name)
 	}
 
